@@ -1172,31 +1172,147 @@ def gen_po(rng, feats):
 
 
 def directed_incremental():
-    """Incremental use: the second part is read after solve() has been called on the first. Returns (merged program, [texts])."""
+    """Incremental use: each further part is read after solve() has been called on the previous ones (optionally after popping to root
+    level, as the deliberative executor does). The first part makes some resolver INAPPLICABLE while the graph is built (an existential
+    over a type without instances in a disjunct, a formula argument whose type cannot fit the parameter: inconsistency_exception in
+    solver::apply_resolver), with control variants where it is applicable; later parts add constraints on old variables, new variables,
+    new facts / goals. Returns (merged program, [texts and "-pop" markers])."""
     out = []
+    R = lambda v: num(v, False)
     P = {'name': 'IP', 'owner': None, 'params': [], 'supers': ['Interval'], 'body': []}
     sv = {'name': 'ISV', 'kind': 'class', 'supers': ['StateVariable'], 'fields': [], 'ctors': []}
     sa = {'name': 'ISV:A', 'owner': 'ISV', 'params': [], 'supers': [], 'body': []}
-    five = num(5, False)
     for variant in range(3):
         if variant == 0:     # a plain interval fact created inside a disjunct that is not chosen
             classes, preds = [], [P]
             m1 = [('local', 'bool', 'b', None),
-                  ('disj', 'id0', [[('formula', True, 'f', [], 'IP', [('start', num(1, False))]), ('expr', var('b'))], [('expr', ('not', var('b')))]]),
+                  ('disj', 'id0', [[('formula', True, 'f', [], 'IP', [('start', R(1))]), ('expr', var('b'))], [('expr', ('not', var('b')))]]),
                   ('expr', ('not', var('b')))]
         elif variant == 1:   # a fact on a state variable created inside a disjunct that is not chosen
             classes, preds = [sv], [sa]
             m1 = [('new', 'ISV', 's', []), ('local', 'bool', 'b', None),
-                  ('disj', 'id0', [[('formula', True, 'f', ['s'], 'ISV:A', [('start', num(1, False))]), ('expr', var('b'))], [('expr', ('not', var('b')))]]),
+                  ('disj', 'id0', [[('formula', True, 'f', ['s'], 'ISV:A', [('start', R(1))]), ('expr', var('b'))], [('expr', ('not', var('b')))]]),
                   ('expr', ('not', var('b')))]
         else:                # nothing nested: plain incremental constraints
             classes, preds = [], [P]
             m1 = [('local', 'bool', 'b', None), ('formula', False, 'g', [], 'IP', []), ('expr', ('not', var('b')))]
-        m2 = [('local', 'real', 'z', None), ('expr', ('ge', var('z'), five)), ('local', 'real', 'w', None), ('expr', ('lt', var('w'), var('z')))]
+        m2 = [('local', 'real', 'z', None), ('expr', ('ge', var('z'), R(5))), ('local', 'real', 'w', None), ('expr', ('lt', var('w'), var('z')))]
         p1 = {'classes': classes, 'preds': preds, 'main': m1}
         p2 = {'classes': [], 'preds': [], 'main': m2}
         merged = {'classes': classes, 'preds': preds, 'main': m1 + m2}
         out.append((merged, [A.pp_program(p1), A.pp_program(p2)]))
+    # --- inapplicable resolvers in the first part ---------------------------------------------------------------------
+    cls = lambda n, sup=(): {'name': n, 'kind': 'class', 'supers': list(sup), 'fields': [], 'ctors': []}
+    courier, parcel, truck = cls('Courier'), cls('Parcel'), cls('Truck')
+    item = {'name': 'IItem', 'kind': 'class', 'supers': [], 'fields': [('w', 'real', None)], 'ctors': []}
+    crate = cls('ICrate', ['IItem'])
+    k = 0
+    for shape in range(3):
+        for applicable in (False, True):
+            if shape == 0:
+                # an existential over a type that has no instance, in the first disjunct of the goal's rule
+                deliver = {'name': 'Deliver', 'owner': None, 'params': [], 'supers': [],
+                           'body': [('disj', 'dl', [[('local', ('ref', 'Courier'), 'c', None)], [('local', 'real', 'd', None), ('expr', ('ge', var('d'), R(1)))]])]}
+                classes, preds = [courier], [deliver]
+                m1 = ([('new', 'Courier', 'c0', [])] if applicable else []) + \
+                     [('local', 'real', 'x', None), ('expr', ('ge', var('x'), R(0))), ('local', 'bool', 'b', None), ('formula', False, 'dv', [], 'Deliver', [])]
+                newgoal = ('formula', False, 'dv2', [], 'Deliver', [])
+            elif shape == 1:
+                # the argument of the rule's subgoal cannot fit the parameter (unrelated types): the goal can only be unified with the fact
+                load = {'name': 'Load', 'owner': None, 'params': [('t', ('ref', 'Parcel' if applicable else 'Truck'))], 'supers': [], 'body': []}
+                ship = {'name': 'Ship', 'owner': None, 'params': [('p', ('ref', 'Parcel'))], 'supers': [],
+                        'body': [('formula', False, 'l', [], 'Load', [('t', var('p'))])]}
+                classes, preds = [parcel, truck], [load, ship]
+                m1 = [('new', 'Parcel', 'p0', []), ('new', 'Truck', 't0', []), ('local', 'real', 'x', None), ('expr', ('ge', var('x'), R(0))), ('local', 'bool', 'b', None),
+                      ('formula', True, 'sh0', [], 'Ship', [('p', var('p0'))]), ('formula', False, 'sh', [], 'Ship', [('p', var('p0'))])]
+                newgoal = ('formula', False, 'sh2', [], 'Ship', [('p', var('p0'))])
+            else:
+                # a constant of the supertype handed to a parameter of the subtype, in the first disjunct
+                grasp = {'name': 'IGrasp', 'owner': None, 'params': [('c', ('ref', 'ICrate'))], 'supers': [], 'body': []}
+                fit = {'name': 'Fit', 'owner': None, 'params': [('it', ('ref', 'IItem'))], 'supers': [],
+                       'body': [('disj', 'ft', [[('formula', False, 'gr', [], 'IGrasp', [('c', var('it'))])], [('expr', ('ge', var('it', 'w'), R(0)))]])]}
+                classes, preds = [item, crate], [grasp, fit]
+                m1 = [('new', 'IItem', 'i0', []), ('new', 'ICrate', 'k0', []), ('local', 'real', 'x', None), ('expr', ('ge', var('x'), R(0))), ('local', 'bool', 'b', None),
+                      ('formula', False, 'ft0', [], 'Fit', [('it', var('k0' if applicable else 'i0'))])]
+                newgoal = ('formula', False, 'ft2', [], 'Fit', [('it', var('k0' if applicable else 'i0'))])
+            laters = [
+                [[('expr', ('ge', var('x'), R(10)))]],
+                [[('local', 'real', 'y', None), ('expr', ('ge', var('y'), ('add', [var('x'), R(1)]))), ('expr', ('ge', var('x'), R(2)))]],
+                [[('expr', ('eq', var('x'), R(4))), newgoal, ('expr', var('b'))], [('expr', ('ge', var('x'), R(4))), ('local', 'real', 'u', None), ('expr', ('gt', var('u'), var('x')))]],
+            ]
+            for parts in laters:
+                k += 1
+                texts = [A.pp_program({'classes': classes, 'preds': preds, 'main': m1})]
+                main = list(m1)
+                for part in parts:
+                    if k % 2:
+                        texts.append("-pop")
+                    texts.append(A.pp_program({'classes': [], 'preds': [], 'main': part}))
+                    main += part
+                out.append(({'classes': classes, 'preds': preds, 'main': main}, texts))
+    return out
+
+
+def directed_assign():
+    """C06 / C01: assignment statements `name = e;` / `a.b = e;`. assignment_statement::execute does exprs.emplace: a binding when the
+    name is not yet bound in the target environment, NO effect otherwise. Assignments to existing temporal parameters of facts and goals
+    (values that would make the atom ill-formed if they took effect), to existing variables and fields, and to new names, at top level,
+    in rule bodies, disjuncts and constructors."""
+    out = []
+    R = lambda v: num(v, False)
+    AP = {'name': 'AP', 'owner': None, 'params': [], 'supers': ['Interval'], 'body': []}
+    AM = {'name': 'AM', 'owner': None, 'params': [], 'supers': ['Impulse'], 'body': []}
+    AQ = {'name': 'AQ', 'owner': None, 'params': [], 'supers': ['Interval'],
+          'body': [('assign', ['this'], 'end', False, ('sub', [var('start'), R(5)])), ('assign', [], 'tmp', True, ('add', [var('duration'), R(1)])),
+                   ('expr', ('ge', var('tmp'), R(1)))]}
+    AQ2 = {'name': 'AQ2', 'owner': None, 'params': [('k', 'real')], 'supers': ['Impulse'],
+           'body': [('assign', ['this'], 'at', False, ('add', [var('horizon'), R(10)])), ('assign', ['this'], 'k', False, R(3)), ('expr', ('ge', var('k'), R(0)))]}
+    AQ3 = {'name': 'AQ3', 'owner': None, 'params': [], 'supers': ['Interval'],
+           'body': [('formula', True, 'sub', [], 'AP', [('start', var('start'))]), ('assign', ['sub'], 'end', False, ('sub', [var('start'), R(2)])),
+                    ('assign', ['sub'], 'duration', False, ('neg', R(1)))]}
+    sv = {'name': 'ASV', 'kind': 'class', 'supers': ['StateVariable'], 'fields': [], 'ctors': []}
+    sa = {'name': 'ASV:A', 'owner': 'ASV', 'params': [], 'supers': [], 'body': []}
+    bx = {'name': 'ABx', 'kind': 'class', 'supers': [], 'fields': [('w', 'real', R(2))],
+          'ctors': [{'params': [('p', 'real')], 'supers': [], 'inits': [],
+                     'body': [('assign', ['this'], 'w', False, R(9)), ('assign', [], 'extra', True, ('add', [var('w'), var('p')])), ('expr', ('ge', var('extra'), R(3)))]}]}
+    preds = [AP, AM, AQ, AQ2, AQ3]
+    f = lambda *p: var('f', *p)
+    g = lambda *p: var('g', *p)
+    old = lambda path, x, e: ('assign', path, x, False, e)
+    new = lambda path, x, e: ('assign', path, x, True, e)
+    mains = [
+        ([], [('formula', True, 'f', [], 'AP', [('start', R(5)), ('end', R(8))]), old(['f'], 'end', R(3))]),
+        ([], [('formula', True, 'f', [], 'AP', [('start', R(5))]), old(['f'], 'end', R(2))]),
+        ([], [('formula', True, 'f', [], 'AP', [('start', R(5)), ('end', R(8))]), old(['f'], 'duration', R(100))]),
+        ([], [('formula', True, 'f', [], 'AP', [('end', R(8))]), old(['f'], 'start', R(30)), old(['f'], 'duration', ('neg', R(4)))]),
+        ([], [('formula', True, 'f', [], 'AM', [('at', R(4))]), old(['f'], 'at', R(100)), ('expr', ('le', var('horizon'), R(50)))]),
+        ([], [('formula', True, 'f', [], 'AM', []), old(['f'], 'at', ('sub', [var('origin'), R(3)]))]),
+        ([], [('formula', False, 'g', [], 'AP', []), old(['g'], 'start', R(50)), old(['g'], 'end', R(10))]),
+        ([], [('formula', False, 'g', [], 'AP', [('start', R(5))]), old(['g'], 'end', R(1))]),
+        ([], [('formula', False, 'g', [], 'AM', []), old(['g'], 'at', ('add', [var('horizon'), R(7)])), ('expr', ('ge', g('at'), R(2)))]),
+        ([], [('formula', False, 'g', [], 'AQ', [('start', R(6))])]),
+        ([], [('formula', False, 'g', [], 'AQ2', [])]),
+        ([], [('formula', False, 'g', [], 'AQ3', [('start', R(4))])]),
+        ([sv], [('new', 'ASV', 'sv', []), ('formula', True, 'f', ['sv'], 'ASV:A', [('start', R(5)), ('end', R(8))]), old(['f'], 'end', R(3))]),
+        ([sv], [('new', 'ASV', 'sv', []), ('formula', True, 'f', ['sv'], 'ASV:A', [('start', R(5))]), old(['f'], 'duration', ('neg', R(2))), ('expr', ('le', f('end'), R(9)))]),
+        ([sv], [('new', 'ASV', 'sv', []), ('formula', False, 'g', ['sv'], 'ASV:A', []), old(['g'], 'end', ('sub', [g('start'), R(1)])), ('expr', ('ge', g('start'), R(3)))]),
+        # variables
+        ([], [('local', 'real', 'x', None), ('expr', ('ge', var('x'), R(2))), old([], 'x', R(7)), ('expr', ('le', var('x'), R(3)))]),
+        ([], [('local', 'real', 'x', None), new([], 'z', ('add', [var('x'), R(1)])), ('expr', ('ge', var('z'), R(3))), old([], 'z', R(100)), ('expr', ('le', var('z'), R(10)))]),
+        ([], [('local', 'bool', 'b', None), ('expr', var('b')), old([], 'b', ('bool', False))]),
+        ([], [('local', 'real', 'x', None), ('local', 'bool', 'b', None),
+              ('disj', 'ad0', [[new([], 'k', R(1)), ('expr', ('ge', var('x'), var('k'))), ('expr', var('b'))], [new([], 'k', R(2)), ('expr', ('ge', var('x'), var('k')))]]),
+              ('expr', ('not', var('b')))]),
+        # a new name in the environment of an atom / of an object
+        ([], [('formula', True, 'f', [], 'AP', [('start', R(5)), ('end', R(8))]), new(['f'], 'note', ('sub', [f('end'), f('start')])), ('expr', ('ge', f('note'), R(3)))]),
+        ([bx], [('new', 'ABx', 'bx', [R(4)]), ('expr', ('le', var('bx', 'w'), R(2))), old(['bx'], 'w', R(5)), new(['bx'], 'tag', R(1)), ('expr', ('eq', var('bx', 'tag'), R(1)))]),
+        ([bx], [('new', 'ABx', 'bx', [R(1)]), ('new', 'ABx', 'by', [R(2)]), old(['by'], 'w', ('add', [var('bx', 'w'), R(1)])), ('expr', ('eq', var('bx', 'w'), var('by', 'w')))]),
+    ]
+    for classes, main in mains:
+        cl = list(classes)
+        prs = list(preds) + ([sa] if sv in classes else [])
+        prog = {'classes': cl, 'preds': prs, 'main': main}
+        out.append((prog, A.pp_program(prog)))
     return out
 
 
